@@ -172,6 +172,12 @@ pub mod prelude {
         ensures r@ == be_int(x as int, 8)
     { x.to_be_bytes() }
 
+    // slices never exceed isize::MAX bytes
+    #[verifier::external_body]
+    pub broadcast proof fn axiom_slice_len_bound(s: &[u8])
+        ensures #[trigger] s@.len() <= isize::MAX
+    {}
+
     // R10: `v[a..b].copy_from_slice(src)` on a Vec (this Verus has no usable spec for a mutable
     // sub-range borrow of a Vec): replaces exactly that range; panics unless the lengths agree
     #[verifier::external_body]
@@ -467,7 +473,7 @@ pub mod prelude {
     pub broadcast group prelude_str_axioms {
         axiom_str_ext_bytes, axiom_str_ext_chars, axiom_str_len_bound, axiom_pat_starts_str, axiom_pat_ends_str,
         axiom_pat_starts_char, axiom_pat_find_char, axiom_cow_deref_str, lemma_first_index_bounds,
-        axiom_u16_parse_empty,
+        axiom_u16_parse_empty, axiom_slice_len_bound,
     }
     pub broadcast group prelude_utf8_axioms {
         axiom_boundary_ascii, axiom_boundary_after_ascii, axiom_boundary_ends, axiom_cow_str_valid, axiom_str_valid_utf8,
